@@ -380,7 +380,10 @@ class _SktimeForecaster(BaseForecaster):
                 f"`update` is called."
             )
             # refit with updated data, not only passed data
-            self.fit(self._y, self._X, self.fh)
+            # `fh` is optional here: it may only be given later in `predict`;
+            # re-fitting starts from the unfitted state, like a first `fit`
+            self._is_fitted = False
+            self.fit(self._y, self._X, self._fh)
         return self
 
     def update_predict(
